@@ -64,3 +64,29 @@ class Engine:
                 if a[0] == "param":
                     names.add(a[2])
         return names == {"outvec", "errvec"}
+
+
+def eval_const(t):
+    """fold a constant expression term (BitOr/BitAnd/Add of constants, through casts)"""
+    while t[0] == "cast":
+        t = t[2]
+    if t[0] == "const" and isinstance(t[1], int):
+        return t[1]
+    if t[0] == "bin":
+        a, b = eval_const(t[2]), eval_const(t[3])
+        if a is None or b is None:
+            return None
+        return {"BitOr": a | b, "BitAnd": a & b, "Add": a + b, "BitXor": a ^ b}.get(t[1])
+    return None
+
+
+def upper_const(t):
+    """constant upper bound of a length term: const, or min(.., const ..)"""
+    c = const_of(t)
+    if c is not None:
+        return c
+    if t[0] == "call" and t[1] in ("std::cmp::min", "core::cmp::min", "std::cmp::Ord::min"):
+        bs = [upper_const(x) for x in t[2]]
+        bs = [b for b in bs if b is not None]
+        return min(bs) if bs else None
+    return None
